@@ -91,6 +91,14 @@ class _Inline(object):
         self.exits = []
 
 
+class _InlineCond(object):
+    """Frame of a helper inlined in condition position: every ``return E``
+    of the helper becomes a branch on E."""
+
+    def __init__(self):
+        self.rets = []      # (stubs, value expr or None)
+
+
 class _Try(object):
     def __init__(self, handlers, final, catch_all):
         self.handlers = handlers      # list of handler entry nodes
@@ -120,6 +128,7 @@ class CFG(object):
         self.name = name or (func.fq if func is not None else '<block>')
         self.nodes = []
         self._copy_env = None
+        self._pending_value = None
         self.entry = self._new('entry')
         self.exit = self._new('exit')
         self.raise_exit = self._new('raise')
@@ -172,7 +181,14 @@ class CFG(object):
         idx = len(frames) - 1
         while idx >= 0:
             frame = frames[idx]
-            if isinstance(frame, _Inline):
+            if isinstance(frame, _InlineCond):
+                if kind == 'inline_cond':
+                    frame.rets.append((stubs, self._pending_value))
+                    return
+                if kind in ('break', 'continue'):
+                    raise AnalysisError('%s crosses an inlined helper in %s'
+                                        % (kind, self.name))
+            elif isinstance(frame, _Inline):
                 if kind == 'inline_exit':
                     frame.exits.extend(stubs)
                     return
@@ -230,6 +246,19 @@ class CFG(object):
             if expr.value:
                 return stubs, []
             return [], stubs
+        body = getattr(expr, '_inline_body', None)
+        if body is not None:
+            frame = _InlineCond()
+            out = self._block(body, stubs, frames + [frame])
+            trues, falses = [], list(out)      # falling off the end: None
+            for rstubs, value in frame.rets:
+                if value is None:
+                    falses.extend(rstubs)
+                else:
+                    tru, fls = self._cond(value, rstubs, frames)
+                    trues.extend(tru)
+                    falses.extend(fls)
+            return trues, falses
         node = self._new('test', expr)
         self._connect(stubs, node)
         if _may_raise(expr):
@@ -275,6 +304,13 @@ class CFG(object):
             node = self._new('stmt', stmt)
             self._connect(stubs, node)
             return [(node, 'seq')]
+        if isinstance(stmt, ast.Return) and getattr(
+                stmt, '_inline_cond_ret', False):
+            marker = self._new('stmt', None, note='inline-return')
+            self._connect(stubs, marker)
+            self._pending_value = stmt.value
+            self._jump([(marker, 'seq')], 'inline_cond', frames)
+            return []
         if isinstance(stmt, ast.Return):
             node = self._new('return', stmt)
             self._connect(stubs, node)
